@@ -40,7 +40,10 @@ def block_0(
             (
                 0,
                 address_type.to_knx() | frame_format,
-                (tpci_int << 2) + _APCI_SEC_HIGH,
+                # `tpci_int` is the TPCI octet as serialized (`TPCI.to_knx()`): the
+                # TPCI bits are already in place, the two low bits hold the
+                # high bits of the APCI - the first TPDU octet as on the bus.
+                tpci_int | _APCI_SEC_HIGH,
                 _APCI_SEC_LOW,
                 0,
                 payload_length,
